@@ -1866,23 +1866,53 @@ func ruleIntrospectionSources(r *Run) {
 			r.Check(isGatewaySchemaLoad(ci.Common().Args[idx]), "R3b", fnName(fn), "schema argument of "+cn[strings.LastIndex(cn, ".")+1:], r.P.pos(ins.Pos()),
 				"validation and introspection read the same Gateway.schema field", "validation or introspection is given a schema other than Gateway.schema: what the gateway reports and what it enforces can differ")
 		}
-		for _, ins := range allInstrs(fn) {
-			st, ok := ins.(*ssa.Store)
-			if !ok {
-				continue
+	}
+	// the schema stored into a planning context: the field Gateway.schema read on the spot, or —
+	// in a constructor, of this package or another (`newPlanningContext(…, g.schema, …)`,
+	// `planner.NewPlanningContext(…)`) — the constructor's parameter, judged at each call on the
+	// request path
+	reach := r.P.CG.Reachable([]*ssa.Function{h}, nil)
+	var schemaGiven func(fn *ssa.Function, v ssa.Value, at ssa.Instruction, through string, depth int)
+	schemaGiven = func(fn *ssa.Function, v ssa.Value, at ssa.Instruction, through string, depth int) {
+		if isGatewaySchemaLoad(v) {
+			k++
+			r.OK("R3b", fnName(fn), "PlanningContext.Schema"+through, r.P.pos(at.Pos()), "planning reads the same Gateway.schema field")
+			return
+		}
+		if param, isParam := unwrap(v).(*ssa.Parameter); isParam && depth < 3 {
+			pi := -1
+			for i, p := range fn.Params {
+				if p == param {
+					pi = i
+				}
 			}
-			if fa, ok := st.Addr.(*ssa.FieldAddr); ok && fieldOf(fa) != nil && fieldOf(fa).Name() == "Schema" && namedOf(fa.X.Type()) == plannerPkg+".PlanningContext" {
-				k++
-				r.Check(isGatewaySchemaLoad(st.Val), "R3b", fnName(fn), "PlanningContext.Schema", r.P.pos(st.Pos()),
-					"planning reads the same Gateway.schema field", "the planner is given a schema other than Gateway.schema")
+			var sites []*Edge
+			traceable := pi >= 0
+			for _, e := range r.P.CG.In[fn] {
+				if !reach[e.Caller] {
+					continue
+				}
+				if e.Kind != "static" || pi >= len(e.Site.Common().Args) {
+					traceable = false
+				}
+				sites = append(sites, e)
+			}
+			if traceable && len(sites) > 0 {
+				for _, e := range sites {
+					schemaGiven(e.Caller, e.Site.Common().Args[pi], e.Site, " through "+fnName(fn), depth+1)
+				}
+				return
 			}
 		}
+		k++
+		if topFn(fn).Pkg != nil && topFn(fn).Pkg.Pkg.Path() == modPath {
+			r.Bad("R3b", fnName(fn), "PlanningContext.Schema"+through, r.P.pos(at.Pos()), "the planner is given a schema other than Gateway.schema")
+		} else {
+			r.Bad("R3b", fnName(fn), "PlanningContext.Schema"+through, r.P.pos(at.Pos()), "a planning context on the request path is given a schema the rule cannot trace to Gateway.schema")
+		}
 	}
-	// the planning context built by a constructor of the module (`planner.NewPlanningContext(…,
-	// g.schema, …)`): the schema it stores is its parameter, judged at each call on the request path
-	reach := r.P.CG.Reachable([]*ssa.Function{h}, nil)
 	for _, fn := range r.P.Funcs {
-		if !reach[fn] || topFn(fn).Pkg == nil || topFn(fn).Pkg.Pkg.Path() == modPath {
+		if !reach[fn] || topFn(fn).Pkg == nil {
 			continue
 		}
 		for _, ins := range allInstrs(fn) {
@@ -1894,28 +1924,7 @@ func ruleIntrospectionSources(r *Run) {
 			if !ok || fieldOf(fa) == nil || fieldOf(fa).Name() != "Schema" || namedOf(fa.X.Type()) != plannerPkg+".PlanningContext" {
 				continue
 			}
-			param, isParam := unwrap(st.Val).(*ssa.Parameter)
-			pi := -1
-			if isParam {
-				for i, p := range fn.Params {
-					if p == param {
-						pi = i
-					}
-				}
-			}
-			if pi < 0 {
-				k++
-				r.Bad("R3b", fnName(fn), "PlanningContext.Schema", r.P.pos(st.Pos()), "a planning context on the request path is given a schema the rule cannot trace to Gateway.schema")
-				continue
-			}
-			for _, e := range r.P.CG.In[fn] {
-				if e.Kind != "static" || !reach[e.Caller] || pi >= len(e.Site.Common().Args) {
-					continue
-				}
-				k++
-				r.Check(isGatewaySchemaLoad(e.Site.Common().Args[pi]), "R3b", fnName(e.Caller), "PlanningContext.Schema through "+fnName(fn), r.P.pos(e.Site.Pos()),
-					"planning reads the same Gateway.schema field", "the planner is given a schema other than Gateway.schema")
-			}
+			schemaGiven(fn, st.Val, st, "", 0)
 		}
 	}
 	r.AtLeast("R3b", "schema consumers on the request path", k, 5)
